@@ -58,4 +58,6 @@ THEOREMS = [
     ("DastardV.Props.C07", "DastardV.C07.C07_header_accepted"),
     ("DastardV.Props.C07", "DastardV.C07.C07_publish_crash_counterexample"),
     ("DastardV.Props.C07", "DastardV.C07.C07_publish_partial"),
+    ("DastardV.Lemmas.C07Oracle", "DastardV.C07.firstDiffTok_none_iff"),
+    ("DastardV.Lemmas.C07Oracle", "DastardV.C07.firstDiffTok_some_ge"),
 ]
